@@ -1,26 +1,33 @@
 ------------------------------ MODULE Rational ------------------------------
 (***************************************************************************)
 (* Exact rational arithmetic for TLC.  A rational is <<num, den>> with     *)
-(* den > 0 and gcd(|num|, den) = 1.  TLC integers are 32 bit, so every     *)
-(* operator cross-reduces before multiplying and `Fits` lets a spec skip   *)
-(* (and count) an instance instead of overflowing.                          *)
+(* den > 0 and gcd(|num|, den) = 1.  TLC integers are 32 bit: every        *)
+(* operator cross-reduces before multiplying and CHECKS each product and   *)
+(* sum; an operation that would overflow returns NaR = <<0, 0>> ("not a    *)
+(* rational"), which propagates.  A specification tests Valid(x) and skips *)
+(* (and counts) such an instance instead of aborting or silently wrapping. *)
 (***************************************************************************)
 EXTENDS Integers, Sequences
 
 Abs(n) == IF n < 0 THEN -n ELSE n
-
-GCD(a, b) ==
-  LET g[x \in Nat, y \in Nat] == IF y = 0 THEN x ELSE g[y, x % y]
-  IN  g[Abs(a), Abs(b)]
+MaxInt == 2147483647
 
 RECURSIVE Gcd(_, _)
 Gcd(a, b) == IF b = 0 THEN Abs(a) ELSE Gcd(b, a % b)
 
+NaR        == <<0, 0>>
+IsNaR(a)   == a[2] = 0
+Valid(a)   == a[2] # 0
+
+MulFits(x, y) == x = 0 \/ y = 0 \/ Abs(x) <= MaxInt \div Abs(y)
+AddFits(x, y) == (x >= 0 /\ y <= 0) \/ (x <= 0 /\ y >= 0) \/ Abs(x) <= MaxInt - Abs(y)
+
 \* normalise an arbitrary pair (den # 0)
 Norm(n, d) ==
-  LET g == Gcd(Abs(n), Abs(d))
-      s == IF d < 0 THEN -1 ELSE 1
-  IN  IF n = 0 THEN <<0, 1>> ELSE <<s * (n \div g), s * (d \div g)>>
+  IF d = 0 THEN NaR
+  ELSE LET g == Gcd(Abs(n), Abs(d))
+           s == IF d < 0 THEN -1 ELSE 1
+       IN  IF n = 0 THEN <<0, 1>> ELSE <<s * (n \div g), s * (d \div g)>>
 
 R(n)       == <<n, 1>>
 Q(n, d)    == Norm(n, d)
@@ -31,30 +38,40 @@ Den(q)     == q[2]
 
 IsRat(q)   == q[2] > 0 /\ Gcd(Abs(q[1]), q[2]) = 1
 
-RNeg(a)    == <<-a[1], a[2]>>
+RNeg(a)    == IF IsNaR(a) THEN NaR ELSE <<-a[1], a[2]>>
 RAdd(a, b) ==
-  LET g  == Gcd(a[2], b[2])
-      da == a[2] \div g
-      db == b[2] \div g
-  IN  Norm(a[1] * db + b[1] * da, da * b[2])
+  IF IsNaR(a) \/ IsNaR(b) THEN NaR
+  ELSE LET g  == Gcd(a[2], b[2])
+           da == a[2] \div g
+           db == b[2] \div g
+       IN  IF ~(MulFits(a[1], db) /\ MulFits(b[1], da) /\ MulFits(da, b[2])) THEN NaR
+           ELSE IF ~AddFits(a[1] * db, b[1] * da) THEN NaR
+           ELSE Norm(a[1] * db + b[1] * da, da * b[2])
 RSub(a, b) == RAdd(a, RNeg(b))
 RMul(a, b) ==
-  LET g1 == Gcd(Abs(a[1]), b[2])
-      g2 == Gcd(Abs(b[1]), a[2])
-  IN  IF a[1] = 0 \/ b[1] = 0 THEN Zero
-      ELSE <<(a[1] \div g1) * (b[1] \div g2), (a[2] \div g2) * (b[2] \div g1)>>
-RInv(a)    == IF a[1] < 0 THEN <<-a[2], -a[1]>> ELSE <<a[2], a[1]>>
+  IF IsNaR(a) \/ IsNaR(b) THEN NaR
+  ELSE IF a[1] = 0 \/ b[1] = 0 THEN Zero
+  ELSE LET g1 == Gcd(Abs(a[1]), b[2])
+           g2 == Gcd(Abs(b[1]), a[2])
+           n1 == a[1] \div g1  n2 == b[1] \div g2
+           d1 == a[2] \div g2  d2 == b[2] \div g1
+       IN  IF MulFits(n1, n2) /\ MulFits(d1, d2) THEN <<n1 * n2, d1 * d2>> ELSE NaR
+RInv(a)    == IF IsNaR(a) \/ a[1] = 0 THEN NaR
+              ELSE IF a[1] < 0 THEN <<-a[2], -a[1]>> ELSE <<a[2], a[1]>>
 RDiv(a, b) == RMul(a, RInv(b))
-RIsZero(a) == a[1] = 0
+RIsZero(a) == Valid(a) /\ a[1] = 0
 RSign(a)   == IF a[1] > 0 THEN 1 ELSE IF a[1] < 0 THEN -1 ELSE 0
-RAbs(a)    == <<Abs(a[1]), a[2]>>
-RLt(a, b)  == RSign(RSub(a, b)) < 0
-RLeq(a, b) == RSign(RSub(a, b)) <= 0
+RAbs(a)    == IF IsNaR(a) THEN NaR ELSE <<Abs(a[1]), a[2]>>
+\* comparisons are FALSE when an operand (or the difference) is not representable
+RLt(a, b)  == LET d == RSub(a, b) IN Valid(d) /\ d[1] < 0
+RLeq(a, b) == LET d == RSub(a, b) IN Valid(d) /\ d[1] <= 0
 REq(a, b)  == a = b
-RMax(a, b) == IF RLt(a, b) THEN b ELSE a
-RMin(a, b) == IF RLt(a, b) THEN a ELSE b
+RMax(a, b) == IF IsNaR(a) \/ IsNaR(b) THEN NaR ELSE IF RLt(a, b) THEN b ELSE a
+RMin(a, b) == IF IsNaR(a) \/ IsNaR(b) THEN NaR ELSE IF RLt(a, b) THEN a ELSE b
 RMulInt(a, k) == RMul(a, R(k))
 RDivInt(a, k) == RMul(a, Q(1, k))
+\* |x| <= n/d for small positive n, d without forming a difference
+RAbsLeqSmall(x, n, d) == Valid(x) /\ MulFits(Abs(x[1]), d) /\ MulFits(x[2], n) /\ Abs(x[1]) * d <= x[2] * n
 
 RECURSIVE RPow(_, _)
 RPow(a, k) == IF k = 0 THEN One
@@ -67,19 +84,14 @@ IPow(b, k) == IF k = 0 THEN 1 ELSE b * IPow(b, k - 1)
 RECURSIVE Fact(_)
 Fact(k) == IF k <= 1 THEN 1 ELSE k * Fact(k - 1)
 
-Limit == 1073741824   \* 2^30
-Fits(q) == Abs(q[1]) < 32768 * 32768 /\ q[2] < 32768 * 32768
-Small(q, b) == Abs(q[1]) <= b /\ q[2] <= b
+Small(q, b) == Valid(q) /\ Abs(q[1]) <= b /\ q[2] <= b
 
-RECURSIVE RSumSeq(_)
-RSumSeq(s) == IF s = <<>> THEN Zero ELSE RAdd(Head(s), RSumSeq(Tail(s)))
-
-\* sum of f[i] over a finite set of integers / indices given as a sequence domain
+\* sum of f[i], i in lo..hi
 RSumFun(f, lo, hi) ==
-  LET acc[i \in (lo - 1)..hi] == IF i < lo THEN Zero ELSE RAdd(acc[i - 1], f[i])
-  IN  acc[hi]
+  LET RECURSIVE acc(_)
+      acc(i) == IF i < lo THEN Zero ELSE RAdd(acc(i - 1), f[i])
+  IN  acc(hi)
 
-\* floor and comparison helpers
 RFloor(a) == IF a[1] >= 0 THEN a[1] \div a[2]
              ELSE -(((-a[1]) + a[2] - 1) \div a[2])
 =============================================================================
